@@ -4,6 +4,7 @@
             | (check p q (k ...)) | (strictest p q) | (repr p)         -- model ops, threaded
             | (sweep (p ...) (k ...))   -- all ordered pairs x all subsets, NOT threaded
             | (dump)                    -- canonical print of the whole state
+            | (drop p)                  -- implementation side only (gc); no-op here
    stdout: one line per job      ID tok tok ...   (one token per item)          *)
 open Eqv_model
 
@@ -101,6 +102,7 @@ let run_item (s : state) (it : sx) : state * string =
   | L [A "repr"; p] -> op (ORepr (pos_of p))
   | L [A "sweep"; ps; ks] -> (s, sweep s (keys_of ps) (keys_of ks))
   | L [A "dump"] -> (s, show_state s)
+  | L [A "drop"; _] -> (s, "N")   (* Python-side garbage collection only; the model keeps the node *)
   | _ -> failwith "unknown item"
 
 let () =
